@@ -153,12 +153,12 @@ func VerifC06InVsDisjunction() {
 // strconv.FormatInt/FormatUint and hashes the string with xxhash; equality of
 // hashes is equality of strings only if xxhash is injective on the explored
 // pre-images (assumption of the claim, to be modelled as an injective
-// uninterpreted function). Values are bounded to |v| < 10^4 (thorough 10^6) to
+// uninterpreted function). Values are bounded to |v| < 10^4 (thorough 10^5; 10^6 left a fifth of the final queries undecided within the time-out) to
 // keep the digit-count fork of FormatInt small.
 func VerifC06HashInVsIn() {
 	lt := nd.Pick("xtype", 3)
 	n := nd.IntRange("n", 1, nd.Bound(2, 3))
-	lim := int64(nd.Bound(10000, 1000000))
+	lim := int64(nd.Bound(10000, 100000))
 	x, xc := c06Left(lt)
 	switch v := xc.(type) {
 	case int64:
